@@ -21,7 +21,7 @@ RULE = ('cases are one key shape (primary + 0-3 subkeys, 1-2 identities with the
         'model in which the primary lacked the capability and a subkey had it, or nobody had it, or a re-binding had changed a '
         'subkey\'s capability; distinct = distinct (capability layout, operation, form, enforcement) tuples')
 TIERS = {'quick': {'runs': 4000, 'budget_s': 80}, 'thorough': {'runs': 200000, 'budget_s': 1500}}
-PROBES = ('recertify_without_issuer_fingerprint', 'subkey_used', 'primary_used', 'nobody_allowed_enforced', 'nobody_allowed_not_enforced', 'rebinding_changed_capability',
+PROBES = ('unhashed_key_flags_added', 'recertify_without_issuer_fingerprint', 'subkey_used', 'primary_used', 'nobody_allowed_enforced', 'nobody_allowed_not_enforced', 'rebinding_changed_capability',
           'recertify_changed_capability', 'same_second_rebinding', 'form_public', 'form_locked', 'form_unlocked', 'form_unprotected', 'form_copy',
           'no_identity_key', 'user_selected_identity', 'two_capable_subkeys', 'decrypt_by_subkey', 'encrypt_on_private_refused',
           'decrypt_stored_message', 'decrypt_stored_after_capability_lost')
@@ -53,6 +53,10 @@ def generate(rng, tier):
                           'no_issuer_fpr': rng.random() < 0.3})
         elif r < 0.37:
             steps.append({'id': sid, 'op': 'tick', 'delta_us': rng.choice([0, 0, 500_000, 1_000_000, 86400_000_000])})
+        elif r < 0.42:
+            # the key travels over a channel that adds a Key Flags subpacket to the unhashed (unauthenticated) area of its
+            # self-certifications and bindings: what the signatures grant is what their hashed areas say
+            steps.append({'id': sid, 'op': 'hop_unhashed_flags', 'flags': rng.choice([0x03, 0x0C, 0x20, 0x2F, 0x00, 0x02])})
         else:
             steps.append({'id': sid, 'op': rng.choice(['sign', 'sign', 'certify', 'encrypt', 'encrypt', 'decrypt']),
                           'form': rng.choice(['unprotected', 'unprotected', 'unlocked', 'locked', 'public', 'copy']),
@@ -140,6 +144,18 @@ def execute(case, ctx):
         if op == 'tick':
             clock.advance(step['delta_us'])
             continue
+        if op == 'hop_unhashed_flags':
+            ctx.probe('unhashed_key_flags_added')
+            names = [str(u.name) for u in uid_objs]
+            subfps = [str(so.fingerprint) for so in sub_objs]
+            try:
+                key = pgpy.PGPKey.from_blob(_add_unhashed_flags(bytes(key), step['flags']))[0]
+            except Exception as e:
+                ctx.viol('C16:tampered-key-unreadable:%s' % type(e).__name__, 'a key with a Key Flags subpacket added to unhashed areas cannot be loaded: %s' % e)
+            uid_objs = [next(u for u in key.userids if str(u.name) == n) for n in names]
+            sub_objs = [next(sk for sk in key.subkeys.values() if str(sk.fingerprint) == f) for f in subfps]
+            protected_copy = None
+            continue
         if op == 'rebind':
             j = step['sub']
             if j >= len(sub_objs):
@@ -199,6 +215,22 @@ def execute(case, ctx):
         ctx.event(step['id'], op, form, ctx.oracle_evals, sorted(ctx.probes.items()))
     if shapes:
         ctx.mark_nontrivial(';'.join(sorted(shapes)))
+
+
+def _add_unhashed_flags(keybytes, flags):
+    from ..ref.wire import encode_packet, encode_subpacket
+    out = bytearray()
+    for p in split_packets(keybytes):
+        b = p.body
+        if p.tag == 2 and b[0] == 4 and b[1] in (0x10, 0x11, 0x12, 0x13, 0x18, 0x1F):
+            hl = int.from_bytes(b[4:6], 'big')
+            ul = int.from_bytes(b[6 + hl:8 + hl], 'big')
+            un = b[8 + hl:8 + hl + ul] + encode_subpacket(27, bytes([flags]))
+            b = b[:6 + hl] + len(un).to_bytes(2, 'big') + un + b[8 + hl + ul:]
+            out += encode_packet(2, b)
+        else:
+            out += p.raw
+    return bytes(out)
 
 
 def _allowed(m, cfg, need, uid_index):
